@@ -35,7 +35,40 @@ RtCodes(e) ==
               ELSE IF e.carrier = 1 THEN {<<"C06.carrier", 0>>}
               ELSE SameCodes(C, e.v, e.r)))
 
+(* ---- streams: n values written one after another on one stream ---- *)
+(* acc = [p, st, S, bad]; value k must start where value k-1 ended, parse  *)
+(* with the stream tables built so far, end at the recorded write offset,  *)
+(* and denote the k-th written value (ref ordinals and class definitions   *)
+(* may reach back into earlier values).                                    *)
+RECURSIVE StreamFold(_,_,_,_)
+StreamFold(e, C, k, acc) ==
+  IF k > Len(e.v.roots) \/ acc.stop THEN acc
+  ELSE IF e.werr[k] = 1 THEN [acc EXCEPT !.bad = @ \cup {<<"C06.writeerr", k>>}, !.stop = TRUE]
+  ELSE LET r == ParseValue(e.out, acc.p, acc.st) IN
+       IF ~r.ok THEN [acc EXCEPT !.bad = @ \cup {<<"C06.wellformed", k>>}, !.stop = TRUE]
+       ELSE LET S1 == Den(C, r.w, e.v.roots[k], acc.S, 0)
+                b1 == (IF r.p - 1 # e.ends[k] THEN {<<"C06.framing", k>>} ELSE {})
+                      \cup (IF e.rerr[k] = 1 THEN {<<"C06.readerr", k>>}
+                            ELSE IF e.carrier[k] = 1 THEN {<<"C06.carrier", k>>}
+                            ELSE IF e.used[k] # e.ends[k] THEN {<<"C06.offset", k>>} ELSE {})
+            IN StreamFold(e, C, k + 1, [p |-> r.p, st |-> r.st, S |-> S1, bad |-> acc.bad \cup b1,
+                                        stop |-> r.p - 1 # e.ends[k]])
+
+StreamCodes(e) ==
+  LET C == [n |-> e.v.n, T |-> e.T]
+      a == StreamFold(e, C, 1, [p |-> 1, st |-> St0, S |-> S0(C), bad |-> {}, stop |-> FALSE])
+      n == Len(e.v.roots)
+      readsOk == \A k \in 1..n : e.rerr[k] = 0 /\ e.carrier[k] = 0
+  IN (IF e.xpanic = 1 THEN {<<"C16.panic", 0>>} ELSE {})
+     \cup (IF e.wpanic = 1 THEN {<<"C06.writepanic", 0>>} ELSE {})
+     \cup a.bad \cup a.S.bad
+     \cup (IF ~readsOk \/ a.stop THEN {}
+           ELSE {<<"C06.value", k>> : k \in {j \in 1..n : ~SlotSame(C, e.v.roots[j], e.r.roots[j], FALSE)}}
+                \cup (IF Len(e.v.n) # Len(e.r.n) THEN {<<"C06.shape", Len(e.r.n)>>}
+                      ELSE {<<"C06.node", i>> : i \in {j \in 1..Len(e.v.n) : ~NodeSame(C, e.v.n[j], e.r.n[j])}}))
+
 Codes(e) == CASE e.ev = "rt" -> RtCodes(e)
+              [] e.ev = "stream" -> StreamCodes(e)
               [] OTHER -> {<<"trace.unknownEvent", 0>>}
 
 Init == l = 1 /\ nrej = 0
